@@ -155,7 +155,14 @@ def ordered_view_feeds_serialiser(ctx, cg):
         return
     it = hit.stmt.iter
     ordered_arg = [unparse(k.value) for k in it.keywords if k.arg == 'ordered'] + [unparse(a) for a in it.args[:1]]
-    res.check(all(a == 'True' for a in ordered_arg), 'R-DOM.ordered-view', ce.fq, "get_children is used in its ordered mode",
+    if not ordered_arg:
+        # no argument at the call: the parameter's default decides
+        gcn = sm.func('XMLElement', 'get_children', T.M_XMLELEMENT).node
+        pos = [a.arg for a in gcn.args.posonlyargs + gcn.args.args]
+        dflt = dict(zip(pos[len(pos) - len(gcn.args.defaults):], gcn.args.defaults))
+        dflt.update({a.arg: d for a, d in zip(gcn.args.kwonlyargs, gcn.args.kw_defaults) if d is not None})
+        ordered_arg = [unparse(dflt['ordered'])] if 'ordered' in dflt else ['<no default>']
+    res.check(all(a == 'True' for a in ordered_arg), 'R-DOM.ordered-view', ce.fq, "get_children is used in its ordered mode (explicitly or through the parameter's default)",
               fail_detail=f"ordered={ordered_arg}", key='R-DOM.ordered-view|ordered-arg', line=hit.line)
     tgt = unparse(hit.stmt.target)
     appends = [s for s in hit.stmt.body if isinstance(s, ast.Expr) and isinstance(s.value, ast.Call) and
